@@ -205,6 +205,10 @@ func (c19) Gen(rng *rand.Rand, tier string, emit func(string)) {
 		c19GenGlue(rng, tier, emit)
 		return
 	}
+	if os.Getenv("VERIF_C19_ONLY") == "kmc" { // development aid: the obikmermatch concurrent cases alone
+		c19GenKmc(rng, tier, emit)
+		return
+	}
 	h := func(s string) string { return hx([]byte(s)) }
 	// ---- corpus: hand-picked cases (the first ones pin the defects found on the unchanged code)
 	for _, s := range []string{"", "a", "ac", "acg", "acgt", "acgta", "ACGTU", "nnnnn", "acgtnacgt", "tttttttt", "ac.t-", "xyzacgt", "a4a4a"} {
@@ -336,6 +340,7 @@ func (c19) Gen(rng *rand.Rand, tier string, emit func(string)) {
 	c19GenConc(rng, tier, emit) // last: the cases above keep their PRNG draws
 	c19GenHist(rng, tier, emit) // fourth pass: histories on one object (after conc: every earlier case keeps its draws)
 	c19GenGlue(rng, tier, emit) // glue pass: the commands of pkg/obitools/obikmersim (last: every earlier case keeps its draws)
+	c19GenKmc(rng, tier, emit)  // obikmermatch under concurrent use (c19_match.go; last: every earlier case keeps its draws)
 }
 
 // one random graph case: k, reads derived from a template, counts
@@ -487,6 +492,9 @@ func (c19) Exec(c string) (string, []Fail) {
 	stat("op:" + f[0])
 	if f[0] == "conc" { // concurrent use (c19_conc.go): its own watchdog
 		return c19ExecConc(f)
+	}
+	if f[0] == "kmc" { // obikmermatch under concurrent use (c19_match.go): child process, its own watchdog
+		return c19ExecKmc(f)
 	}
 	if f[0] == "ks" { // glue pass (c19_glue.go): the commands obikmersimcount / obikmermatch, their own watchdog
 		res := c19ExecGlue(f, fail)
